@@ -54,6 +54,9 @@ Section Fast.
   Definition hashPosition (p : Z) : Z :=
     match tt with ByU16 => hash4 (read32 p) | ByU32 => hash5 (read64 p) end.
 
+  (* LZ4_putIndexOnHash: a byU16 table stores the index truncated to 16 bits *)
+  Definition idx (p : Z) : Z := match tt with ByU16 => p mod 65536 | ByU32 => p end.
+
   (* LZ4_count: length of the common prefix of [p..) and [m..), capped at limit *)
   Fixpoint count_eq (fuel : nat) (p m limit acc : Z) : Z :=
     match fuel with
@@ -155,11 +158,11 @@ Section Fast.
     let s1 := mkC i1 i1 o (sq :: c_seqs s) tab (Z.max hw o) in
     if i1 >=? mflimitPlusOne then NLast s1 else
     (* fill table *)
-    let tab := set tab (hashPosition (i1 - 2)) (i1 - 2) in
+    let tab := set tab (hashPosition (i1 - 2)) (idx (i1 - 2)) in
     (* test next position *)
     let h := hashPosition i1 in
     let '(mi2, low2) := candidate tab h in
-    let tab := set tab h i1 in
+    let tab := set tab h (idx i1) in
     if (if dictSmall then mi2 >=? prefixIdxLimit else true)
        && (match tt with
            | ByU16 => if LZ4_DISTANCE_MAX =? LZ4_DISTANCE_ABSOLUTE_MAX then true else mi2 + LZ4_DISTANCE_MAX >=? i1
@@ -184,7 +187,7 @@ Section Fast.
       let searchMatchNb' := searchMatchNb + 1 in
       if forwardIp' >? mflimitPlusOne then NLast (mkC i (c_anchor s) (c_op s) (c_seqs s) tab (c_hw s)) else
       let forwardH' := hashPosition forwardIp' in
-      let tab' := set tab h current in
+      let tab' := set tab h (idx current) in
       if dictSmall && (mi <? prefixIdxLimit) then search f s forwardIp' step' searchMatchNb' forwardH' tab'
       else if (match tt with ByU16 => LZ4_DISTANCE_MAX <? LZ4_DISTANCE_ABSOLUTE_MAX | ByU32 => true end)
               && (mi + LZ4_DISTANCE_MAX <? current) then search f s forwardIp' step' searchMatchNb' forwardH' tab'
@@ -237,6 +240,6 @@ Section Fast.
     if (match od with FillOutput => true | _ => false end) && (maxOutputSize <? 1) then RFail tab else
     let s0 := mkC startIndex startIndex 0 [] tab 0 in
     if inputSize <? LZ4_minLength then last_literals s0 else
-    let tab := set tab (hashPosition startIndex) startIndex in
+    let tab := set tab (hashPosition startIndex) (idx startIndex) in
     main_loop (Z.to_nat inputSize + 1) (mkC (startIndex + 1) startIndex 0 [] tab 0) (hashPosition (startIndex + 1)).
 End Fast.
